@@ -793,3 +793,597 @@ func c05AssignRule(r *core.Run, o *core.O, funcs []*ssa.Function) {
 		o.Unres("no reflect.Value.Set / SetMapIndex call found in %s", mapPkg)
 	}
 }
+
+// ---------------------------------------------------------------------------
+// C05-D2: what a converter produces for ONE kind, whether the kinds are told apart
+// by a switch / if chain over the selector or by a lookup in a constant
+// package-level table (a map, array or slice keyed by the kind) whose entries are
+// constants or capture-free functions, and whether the conversion is written in
+// the converter itself or delegated (`return table[kind](str)`, `return f(str)`).
+//
+// c05KindEval resolves values that depend only on "selector == k" and on such
+// tables. The tables are decided constant by c20Consts (props/c20_util.go: one
+// initialisation by a literal in the package initialiser, every other mention a
+// read that neither writes nor lets the table escape).
+
+type c05KindEval struct {
+	prog   *ssa.Program
+	consts map[*ssa.Package]*c20Consts
+}
+
+func newC05KindEval(prog *ssa.Program) *c05KindEval {
+	return &c05KindEval{prog: prog, consts: map[*ssa.Package]*c20Consts{}}
+}
+
+func (e *c05KindEval) global(g *ssa.Global) (any, bool) {
+	if g.Pkg == nil {
+		return nil, false
+	}
+	c := e.consts[g.Pkg]
+	if c == nil {
+		c = &c20Consts{all: core.SSAPkgFuncs(e.prog, g.Pkg)}
+		e.consts[g.Pkg] = c
+	}
+	return c.of(g) // unexported variables only: nothing outside the package can write them
+}
+
+type c05Tuple []any
+
+func c05IntLike(t types.Type) bool {
+	b, ok := t.Underlying().(*types.Basic)
+	return ok && b.Info()&types.IsInteger != 0
+}
+
+// value: the concrete value of v when sel == k (sel may be nil: nothing is known
+// about any parameter). Results: constant.Value, *ssa.Function (capture-free),
+// c20Nil, *c20Agg, c05Tuple.
+func (e *c05KindEval) value(v ssa.Value, sel ssa.Value, k int64, depth int) (any, bool) {
+	if depth > 10 || v == nil {
+		return nil, false
+	}
+	if sel != nil && sameVal(v, sel) {
+		return constant.MakeInt64(k), true
+	}
+	switch x := v.(type) {
+	case *ssa.Const:
+		if x.Value != nil {
+			return x.Value, true
+		}
+		return c20Zero(x.Type()), true
+	case *ssa.Function:
+		if len(x.FreeVars) == 0 && x.Blocks != nil {
+			return x, true
+		}
+	case *ssa.ChangeType:
+		return e.value(x.X, sel, k, depth+1)
+	case *ssa.Convert:
+		if c05IntLike(x.Type()) && c05IntLike(x.X.Type()) {
+			if c, ok := e.value(x.X, sel, k, depth+1); ok {
+				if cv, isC := c.(constant.Value); isC && cv.Kind() == constant.Int {
+					if n, exact := constant.Int64Val(cv); exact && n >= 0 && n < 128 {
+						return cv, true // small non-negative numbers survive every integer conversion
+					}
+				}
+			}
+		}
+	case *ssa.UnOp:
+		switch x.Op {
+		case token.MUL:
+			if fw := core.Forward(x); fw != ssa.Value(x) {
+				return e.value(fw, sel, k, depth+1)
+			}
+			return e.cell(x.X, sel, k, depth+1)
+		case token.NOT:
+			if c, ok := e.value(x.X, sel, k, depth+1); ok {
+				if cv, isC := c.(constant.Value); isC && cv.Kind() == constant.Bool {
+					return constant.MakeBool(!constant.BoolVal(cv)), true
+				}
+			}
+		}
+	case *ssa.Lookup:
+		m, ok := e.value(x.X, sel, k, depth+1)
+		if !ok {
+			return nil, false
+		}
+		agg, isAgg := m.(*c20Agg)
+		if !isAgg {
+			return nil, false
+		}
+		mt, isMap := agg.typ.Underlying().(*types.Map)
+		if !isMap || len(agg.keys) != len(agg.elems) {
+			return nil, false
+		}
+		key, ok := e.value(x.Index, sel, k, depth+1)
+		if !ok {
+			return nil, false
+		}
+		kc, isC := key.(constant.Value)
+		if !isC {
+			return nil, false
+		}
+		var val any = c20Zero(mt.Elem())
+		found := false
+		for i, mk := range agg.keys {
+			if mk.Kind() != kc.Kind() {
+				return nil, false
+			}
+			if constant.Compare(mk, token.EQL, kc) {
+				val, found = agg.elems[i], true // a later duplicate key cannot occur in a literal
+			}
+		}
+		if x.CommaOk {
+			return c05Tuple{val, constant.MakeBool(found)}, true
+		}
+		return val, true
+	case *ssa.Extract:
+		t, ok := e.value(x.Tuple, sel, k, depth+1)
+		if !ok {
+			return nil, false
+		}
+		if tup, isT := t.(c05Tuple); isT && x.Index < len(tup) {
+			return tup[x.Index], true
+		}
+	case *ssa.Index:
+		return e.elem(x.X, x.Index, sel, k, depth, e.value)
+	case *ssa.Field:
+		if s, ok := e.value(x.X, sel, k, depth+1); ok {
+			if agg, isAgg := s.(*c20Agg); isAgg && x.Field < len(agg.elems) {
+				return agg.elems[x.Field], true
+			}
+		}
+	case *ssa.BinOp:
+		l, ok1 := e.value(x.X, sel, k, depth+1)
+		r, ok2 := e.value(x.Y, sel, k, depth+1)
+		if ok1 && ok2 {
+			if b, ok := c05Compare(x.Op, l, r); ok {
+				return constant.MakeBool(b), true
+			}
+		}
+	}
+	return nil, false
+}
+
+// cell: the value stored at an address inside a constant table.
+func (e *c05KindEval) cell(addr ssa.Value, sel ssa.Value, k int64, depth int) (any, bool) {
+	if depth > 10 {
+		return nil, false
+	}
+	switch a := addr.(type) {
+	case *ssa.Global:
+		return e.global(a)
+	case *ssa.IndexAddr:
+		if _, isPtr := a.X.Type().Underlying().(*types.Pointer); isPtr {
+			return e.elem(a.X, a.Index, sel, k, depth, e.cell) // &array[i]
+		}
+		return e.elem(a.X, a.Index, sel, k, depth, e.value) // &slice[i]
+	case *ssa.FieldAddr:
+		if s, ok := e.cell(a.X, sel, k, depth+1); ok {
+			if agg, isAgg := s.(*c20Agg); isAgg && a.Field < len(agg.elems) {
+				return agg.elems[a.Field], true
+			}
+		}
+	}
+	return nil, false
+}
+
+func (e *c05KindEval) elem(base, index ssa.Value, sel ssa.Value, k int64, depth int, of func(ssa.Value, ssa.Value, int64, int) (any, bool)) (any, bool) {
+	s, ok := of(base, sel, k, depth+1)
+	if !ok {
+		return nil, false
+	}
+	agg, isAgg := s.(*c20Agg)
+	if !isAgg || agg.keys != nil {
+		return nil, false
+	}
+	iv, ok := e.value(index, sel, k, depth+1)
+	if !ok {
+		return nil, false
+	}
+	ic, isC := iv.(constant.Value)
+	if !isC || ic.Kind() != constant.Int {
+		return nil, false
+	}
+	i, exact := constant.Int64Val(ic)
+	if !exact || i < 0 || i >= int64(len(agg.elems)) {
+		return nil, false // out of range: the access panics; nothing is claimed
+	}
+	return agg.elems[i], true
+}
+
+// c05Compare decides `l op r` on two concrete values: constants of one kind, or
+// a function value / nil compared with nil.
+func c05Compare(op token.Token, l, r any) (bool, bool) {
+	lc, lIsC := l.(constant.Value)
+	rc, rIsC := r.(constant.Value)
+	if lIsC && rIsC {
+		if lc.Kind() != rc.Kind() {
+			return false, false
+		}
+		switch lc.Kind() {
+		case constant.Int, constant.String:
+		case constant.Bool:
+			if op != token.EQL && op != token.NEQ {
+				return false, false
+			}
+		default:
+			return false, false
+		}
+		switch op {
+		case token.EQL, token.NEQ, token.LSS, token.LEQ, token.GTR, token.GEQ:
+			return constant.Compare(lc, op, rc), true
+		}
+		return false, false
+	}
+	if op != token.EQL && op != token.NEQ {
+		return false, false
+	}
+	isNilV := func(v any) (isNil, known bool) {
+		switch v.(type) {
+		case c20Nil:
+			return true, true
+		case *ssa.Function:
+			return false, true
+		}
+		return false, false
+	}
+	ln, lk := isNilV(l)
+	rn, rk := isNilV(r)
+	if !lk || !rk || (!ln && !rn) {
+		return false, false // two function values are not comparable
+	}
+	return (ln == rn) == (op == token.EQL), true
+}
+
+// cut deletes the branch edges of fn that cannot be taken when sel == k: every
+// `if` whose condition has a concrete value under that assumption (a comparison
+// of the selector with constants, the comma-ok of a lookup of the selector in a
+// constant table, a nil test of the entry found, …) keeps only the edge taken.
+func (e *c05KindEval) cut(fn *ssa.Function, sel ssa.Value, k int64) func(core.Edge) bool {
+	dead := map[core.Edge]bool{}
+	var spelled func(core.Edge) bool // comparisons of the selector itself with constants
+	if sel != nil {
+		spelled = cutForValue(fn, sel, k)
+	}
+	for _, b := range fn.Blocks {
+		if len(b.Instrs) == 0 {
+			continue
+		}
+		iff, ok := b.Instrs[len(b.Instrs)-1].(*ssa.If)
+		if !ok {
+			continue
+		}
+		if spelled != nil {
+			for _, s := range b.Succs {
+				if ed := (core.Edge{From: b, To: s}); spelled(ed) {
+					dead[ed] = true
+				}
+			}
+		}
+		c, ok := e.value(iff.Cond, sel, k, 0)
+		if !ok {
+			continue
+		}
+		cv, isC := c.(constant.Value)
+		if !isC || cv.Kind() != constant.Bool {
+			continue
+		}
+		if constant.BoolVal(cv) {
+			dead[core.Edge{From: b, To: b.Succs[1]}] = true
+		} else {
+			dead[core.Edge{From: b, To: b.Succs[0]}] = true
+		}
+	}
+	return func(ed core.Edge) bool { return dead[ed] }
+}
+
+// produced: the dynamic types of result #0 on the returns of the converter prod
+// that are reachable when its selector equals k and whose error result may be
+// nil. A return that hands on both results of a call (`return conv(str)`), or
+// result #0 of a call under that call's err == nil, produces what the callee
+// produces: the static callee, or the capture-free function the callee value
+// resolves to for this kind through a constant table (a nil entry: the call
+// panics, nothing is produced). why != "" when a dynamic type is not static.
+func (e *c05KindEval) produced(prod *ssa.Function, sel ssa.Value, k int64, depth int) (ts []types.Type, why string) {
+	if depth > 4 {
+		return nil, "delegation chain of " + core.FuncName(prod) + " too deep"
+	}
+	if prod.Blocks == nil || prod.Signature.Results().Len() != 2 {
+		return nil, core.FuncName(prod) + " is not a (value, error) function with a body"
+	}
+	var pkgFuncs []*ssa.Function
+	if prod.Pkg != nil {
+		pkgFuncs = core.SSAPkgFuncs(e.prog, prod.Pkg)
+	} else if prod.Parent() != nil && prod.Parent().Pkg != nil {
+		pkgFuncs = core.SSAPkgFuncs(e.prog, prod.Parent().Pkg)
+	}
+	cut := e.cut(prod, sel, k)
+	for _, in := range reachableUnder(prod, cut, core.IsReturn) {
+		ret := in.(*ssa.Return)
+		if len(ret.Results) != 2 {
+			return nil, core.FuncName(prod) + " has a return without two results"
+		}
+		r0, r1 := core.Result(ret, 0), core.Result(ret, 1)
+		if errNonNil(pkgFuncs, r1) {
+			continue
+		}
+		if c1, i1 := core.ResultOf(r1); c1 != nil && c1.Parent() == prod {
+			// a call's error handed on where it was found non-nil
+			if requiresX(prod, core.Is(ret), core.Not(core.ErrNil(i1, core.Is(c1)))) == nil {
+				continue
+			}
+		}
+		if mi, isMI := r0.(*ssa.MakeInterface); isMI {
+			ts = append(ts, mi.X.Type())
+			continue
+		}
+		q, i0 := core.ResultOf(r0)
+		if q == nil || i0 != 0 || q.Parent() != prod || q.Call.IsInvoke() {
+			return nil, core.FuncName(prod) + " returns " + core.Describe(r0) + ", whose dynamic type is not static"
+		}
+		if q1, i1 := core.ResultOf(r1); q1 != q || i1 != 1 {
+			// not the call's own error: the value must only be handed on when the call succeeded
+			if w := requiresX(prod, core.Is(ret), core.ErrNil(1, core.Is(q))); w != nil {
+				return nil, core.FuncName(prod) + " hands on result #0 of a call that may have failed (a placeholder of another type)"
+			}
+		}
+		callee := staticCallee(q)
+		if callee == nil {
+			cv, ok := e.value(q.Call.Value, sel, k, 0)
+			if !ok {
+				return nil, "the function " + core.FuncName(prod) + " calls for this kind (" + core.Describe(q.Call.Value) + ") cannot be resolved through a constant table"
+			}
+			switch f := cv.(type) {
+			case c20Nil:
+				continue // calling a nil function panics: no value is produced
+			case *ssa.Function:
+				callee = f
+			default:
+				return nil, "the callee " + core.Describe(q.Call.Value) + " of " + core.FuncName(prod) + " is not a function constant"
+			}
+		}
+		// the callee's own selector: its reflect.Kind parameter, when it is handed
+		// this selector or a constant
+		var csel ssa.Value
+		ck := k
+		if cp := paramOfType(callee, isReflectKind); cp != nil && len(callee.FreeVars) == 0 {
+			arg := q.Call.Args[paramIndex(callee, cp)]
+			if av, ok := e.value(arg, sel, k, 0); ok {
+				if ac, isC := av.(constant.Value); isC && ac.Kind() == constant.Int {
+					if n, exact := constant.Int64Val(ac); exact {
+						csel, ck = cp, n
+					}
+				}
+			}
+		}
+		sub, w := e.produced(callee, csel, ck, depth+1)
+		if w != "" {
+			return nil, w
+		}
+		ts = append(ts, sub...)
+	}
+	return ts, ""
+}
+
+// c05HasOptsField: t is a struct (or a pointer to one) with exactly one field
+// satisfying isOpts - a bundle of the per-field context handed around as one value.
+func c05HasOptsField(t types.Type, isOpts func(types.Type) bool) bool {
+	if pt, ok := t.Underlying().(*types.Pointer); ok {
+		t = pt.Elem()
+	}
+	st, ok := t.Underlying().(*types.Struct)
+	if !ok {
+		return false
+	}
+	n := 0
+	for i := 0; i < st.NumFields(); i++ {
+		if isOpts(st.Field(i).Type()) {
+			n++
+		}
+	}
+	return n == 1
+}
+
+// c05Dispatch: a per-kind setter reached through a constant table. The function
+// `entry` asserts its parameter #pIdx without comma-ok; it is never called
+// directly, only stored in constant package-level tables, and every function
+// value drawn from those tables is only ever called - by the dynamic call q of
+// the dispatcher d, which hands its own parameter v on as argument #pIdx and
+// has a reflect.Kind parameter sel. Which entry q reaches for a kind is
+// evaluated by c05KindEval.
+type c05Dispatch struct {
+	d      *ssa.Function
+	sel, v *ssa.Parameter
+	q      *ssa.Call
+}
+
+func (e *c05KindEval) dispatchersOf(entry *ssa.Function, pIdx int) (out []c05Dispatch, ok bool) {
+	if entry.Pkg == nil || entry.Parent() != nil || len(entry.FreeVars) > 0 || entry.Signature.Recv() != nil ||
+		(entry.Object() != nil && entry.Object().Exported()) {
+		return nil, false
+	}
+	pkgFuncs := core.SSAPkgFuncs(e.prog, entry.Pkg)
+	initFn := entry.Pkg.Func("init")
+	uses := 0
+	for _, f := range pkgFuncs {
+		for _, b := range f.Blocks {
+			for _, in := range b.Instrs {
+				for _, op := range in.Operands(nil) {
+					if *op != ssa.Value(entry) {
+						continue
+					}
+					switch x := in.(type) {
+					case *ssa.MapUpdate:
+						if f != initFn || x.Value != ssa.Value(entry) {
+							return nil, false
+						}
+					case *ssa.Store:
+						if f != initFn || x.Val != ssa.Value(entry) {
+							return nil, false
+						}
+					default:
+						return nil, false // called directly, passed on, compared, …
+					}
+					uses++
+				}
+			}
+		}
+	}
+	if uses == 0 {
+		return nil, false
+	}
+	// the constant tables holding it account for every one of these uses
+	var tables []*ssa.Global
+	occ := 0
+	var names []string
+	for n := range entry.Pkg.Members {
+		names = append(names, n)
+	}
+	sort.Strings(names)
+	for _, n := range names {
+		g, isG := entry.Pkg.Members[n].(*ssa.Global)
+		if !isG {
+			continue
+		}
+		val, isConst := e.global(g)
+		if !isConst {
+			continue
+		}
+		k := 0
+		for _, f := range c20FuncsIn(val, nil) {
+			if f == entry {
+				k++
+			}
+		}
+		if k > 0 {
+			tables, occ = append(tables, g), occ+k
+		}
+	}
+	if occ != uses {
+		return nil, false
+	}
+	// what is drawn from the tables is only called
+	var calls []*ssa.Call
+	var drawn func(v ssa.Value, depth int) bool
+	drawn = func(v ssa.Value, depth int) bool {
+		if depth > 8 || v.Referrers() == nil {
+			return false
+		}
+		_, isFn := v.Type().Underlying().(*types.Signature)
+		for _, ref := range *v.Referrers() {
+			switch x := ref.(type) {
+			case *ssa.DebugRef:
+			case *ssa.BinOp:
+				if !isFn || (x.Op != token.EQL && x.Op != token.NEQ) {
+					return false
+				}
+			case *ssa.Call:
+				if isFn {
+					if x.Call.IsInvoke() || x.Call.Value != v {
+						return false
+					}
+					for _, a := range x.Call.Args {
+						if a == v {
+							return false
+						}
+					}
+					calls = append(calls, x)
+					continue
+				}
+				bi, isBI := x.Call.Value.(*ssa.Builtin)
+				if !isBI || (bi.Name() != "len" && bi.Name() != "cap") {
+					return false
+				}
+			case *ssa.Lookup:
+				if isFn || x.X != v || !drawn(x, depth+1) {
+					return false
+				}
+			case *ssa.Extract:
+				if b, isB := x.Type().Underlying().(*types.Basic); isB && b.Info()&types.IsBoolean != 0 {
+					continue
+				}
+				if isFn || !drawn(x, depth+1) {
+					return false
+				}
+			case *ssa.IndexAddr:
+				if isFn || x.X != v || !drawn(x, depth+1) {
+					return false
+				}
+			case *ssa.Index:
+				if isFn || x.X != v || !drawn(x, depth+1) {
+					return false
+				}
+			case *ssa.FieldAddr:
+				if isFn || !drawn(x, depth+1) {
+					return false
+				}
+			case *ssa.Field:
+				if isFn || !drawn(x, depth+1) {
+					return false
+				}
+			case *ssa.UnOp:
+				if isFn || x.Op != token.MUL || !drawn(x, depth+1) {
+					return false
+				}
+			default:
+				return false
+			}
+		}
+		return true
+	}
+	for _, g := range tables {
+		for _, f := range pkgFuncs {
+			if f == initFn {
+				continue
+			}
+			for _, b := range f.Blocks {
+				for _, in := range b.Instrs {
+					for _, op := range in.Operands(nil) {
+						if *op != ssa.Value(g) {
+							continue
+						}
+						switch x := in.(type) {
+						case *ssa.DebugRef:
+						case *ssa.UnOp:
+							if x.Op != token.MUL || !drawn(x, 0) {
+								return nil, false
+							}
+						case *ssa.IndexAddr:
+							if x.X != ssa.Value(g) || !drawn(x, 0) {
+								return nil, false
+							}
+						case *ssa.FieldAddr:
+							if !drawn(x, 0) {
+								return nil, false
+							}
+						default:
+							return nil, false
+						}
+					}
+				}
+			}
+		}
+	}
+	seen := map[*ssa.Call]bool{}
+	for _, q := range calls {
+		if seen[q] {
+			continue
+		}
+		seen[q] = true
+		d := q.Parent()
+		sel := paramOfType(d, isReflectKind)
+		if sel == nil || pIdx >= len(q.Call.Args) {
+			return nil, false
+		}
+		var v *ssa.Parameter
+		for _, pa := range d.Params {
+			if sameVal(q.Call.Args[pIdx], pa) {
+				v = pa
+			}
+		}
+		if v == nil {
+			return nil, false
+		}
+		out = append(out, c05Dispatch{d: d, sel: sel, v: v, q: q})
+	}
+	return out, len(out) > 0
+}
